@@ -69,35 +69,43 @@ def chk_c01(w):
     for sid in w.lost_with_dead: put(sid, 'lost-with-dead-worker')
     for sid, pl in places.items():
         w.acc.violated(w.ex, 'C01/connection_dispatched_at_most_once', len(pl) > 1, hist=w.hist, what='stream %d is in %s' % (sid, pl))
+    nohandles = len(w.handle_idxs()) == 0
     for sid in accepted:
-        if sid in places: continue
+        if sid in places or sid in w.dropped_no_worker: continue
         # the only legal way for an accepted stream to vanish: no worker handle was left when it was dispatched
-        ok = len(w.handle_idxs()) == 0 or w.had_no_handles
-        w.acc.violated(w.ex, 'C01/accepted_connection_is_never_silently_discarded', not ok, hist=w.hist,
+        if nohandles: w.dropped_no_worker.append(sid); w.acc.wit['c01_dropped_because_no_worker_left'] += 1; continue
+        w.acc.violated(w.ex, 'C01/accepted_connection_is_never_silently_discarded', True, hist=w.hist,
                        what='stream %d was accepted but is neither queued, in service nor finished (live handles: %s)' % (sid, w.handle_idxs()))
     if accepted: w.acc.wit['c01_checked_with_connections'] += 1
 
 
-# ---- C04 (b): round robin over available workers
+# ---- C04 (b): round robin over available workers (needs cfg track_c04)
 def chk_c04(w):
-    log = w.dispatch_log
     nW = len(w.workers)
-    if w.faulted_ever or nW < 2: return
-    # window of nW consecutive dispatches; precondition "no worker saturated during the window" = before each dispatch of the
-    # window every worker had fewer than `limit` in progress (n recorded at dispatch time by the world)
-    marks = w.c04_marks
-    for s in range(len(log) - nW + 1):
-        win = log[s:s + nW]
-        if any(m is None for m in marks[s:s + nW]): continue
-        pre = []
-        for m in marks[s:s + nW]: pre += [z3.ULT(U64(n + 1), w.limit) if False else z3.ULT(U64(n), w.limit) for n in m]
-        distinct = len(set(x[3] for x in win)) == nW
-        if (s, 'd') in w.c04_done: continue
-        w.c04_done.add((s, 'd'))
-        w.acc.violated(w.ex, 'C04/consecutive_dispatches_go_to_distinct_workers_while_none_is_saturated',
-                       (not distinct) and z3.And(*pre), hist=w.hist,
-                       what='dispatches %s went to workers %s' % ([x[0] for x in win], [x[3] for x in win]))
-        w.acc.wit['c04_windows_checked'] += 1
+    if w.faulted_ever: return
+    sends, marks = w.sends, w.c04_marks
+    done = w.__dict__.setdefault('c04_done', 0)
+    for k in range(done, len(sends)):
+        n, bits = marks[k]; idx = sends[k]
+        # a worker marked unavailable receives nothing
+        w.acc.violated(w.ex, 'C04/dispatch_only_to_workers_marked_available', z3.Not(bits[idx]), hist=w.hist,
+                       what='dispatch %d went to worker %d whose availability bit was clear' % (k, idx))
+        # a saturated worker receives nothing (its in-progress count before the dispatch is below the limit)
+        w.acc.violated(w.ex, 'C04/saturated_worker_receives_nothing', z3.UGE(U64(n[idx]), w.limit), hist=w.hist,
+                       what='dispatch %d went to worker %d which already had %d in progress' % (k, idx, n[idx]))
+        if nW >= 2 and k >= nW - 1:
+            win = list(range(k - nW + 1, k + 1))
+            pre = []
+            for j in win:
+                nj, bj = marks[j]
+                pre += [z3.ULT(U64(nj[i]), w.limit) for i in nj] + [bj[i] for i in bj]
+            distinct = len(set(sends[j] for j in win)) == nW
+            w.acc.violated(w.ex, 'C04/consecutive_dispatches_go_to_distinct_workers_while_none_is_saturated',
+                           z3.And(*pre) if not distinct else False, hist=w.hist,
+                           what='dispatches %s went to workers %s although no worker was saturated or marked unavailable' % (win, [sends[j] for j in win]))
+            w.acc.wit['c04_windows_checked'] += 1
+            if distinct: w.acc.wit['c04_full_rotation_seen'] += 1
+    w.c04_done = len(sends)
 
 
 # ---- C05
@@ -144,13 +152,41 @@ def chk_c05(w):
             acc.wit['c05_uds_registered'] += 1
 
 
-CHECKS = {'C01': chk_c01, 'C02': chk_c02, 'C03': chk_c03, 'C04': chk_c04, 'C05': chk_c05}
+# ---- C08 (accept side)
+def chk_c08(w):
+    acc, ex = w.acc, w.ex
+    H = w.handle_idxs()
+    reported = {}
+    for cmdv in w.cmd.q:
+        if getattr(cmdv, 'variant', None) == 'WorkerFaulted':
+            i = z3.simplify(cmdv.f[0].v).as_long(); reported[i] = reported.get(i, 0) + 1
+    deaths = {}
+    for wk in w.allworkers:
+        if not wk['alive']: deaths[wk['idx']] = deaths.get(wk['idx'], 0) + 1
+    for i in set(list(reported) + list(deaths)):
+        total = reported.get(i, 0) + w.replaced.get(i, 0)
+        acc.violated(ex, 'C08/at_most_one_fault_report_per_dead_worker', total > deaths.get(i, 0), hist=w.hist,
+                     what='worker %d: %d WorkerFaulted reports for %d deaths' % (i, total, deaths.get(i, 0)))
+    # a handle index appears at most once in the rotation
+    acc.violated(ex, 'C08/handle_indices_unique_in_rotation', len(set(H)) != len(H), hist=w.hist, what='handles %s' % H)
+    for wk in w.allworkers:
+        cur = w.workers[wk['idx']]
+        if not wk['alive'] and wk is cur and wk['idx'] not in H:
+            # removed from rotation => exactly one report outstanding or already consumed by a replacement
+            total = reported.get(wk['idx'], 0) + w.replaced.get(wk['idx'], 0)
+            acc.violated(ex, 'C08/removed_worker_is_reported_faulted', total < deaths.get(wk['idx'], 0), hist=w.hist,
+                         what='dead worker %d was removed from the rotation without a WorkerFaulted report' % wk['idx'])
+            acc.wit['c08_fault_detected'] += 1
+        if wk['alive'] and wk['gen'] > 0 and wk['idx'] in H: acc.wit['c08_replacement_in_rotation'] += 1
+    if deaths: acc.wit['c08_states_after_fault'] += 1
+
+
+CHECKS = {'C08': chk_c08, 'C01': chk_c01, 'C02': chk_c02, 'C03': chk_c03, 'C04': chk_c04, 'C05': chk_c05}
 
 
 def make_body(ctx, cfg, on_panic=None):
     def body(ex, acc):
         w = World(ctx, ex, acc, cfg)
-        w.had_no_handles = False; w.c04_marks = []; w.c04_done = set(); w.backoff_new = set(); w.backoff_seen = {}
         try:
             r = w.run_loop()
             if r == 'returned' and not w.stopped:
